@@ -369,6 +369,12 @@ def deadlines(chk):
                               "blocker": "keyupdates", "updates": n, "deadline": 250, "setter": setter, "late": False})
             cases.append({"name": "13/%s/read/keyupdates%d" % (side, n), "scen": s13, "side": side, "call": "read", "blocker": "keyupdates",
                           "updates": n, "deadline": 250, "setter": "specific", "late": True})
+    # the call runs the handshake itself (Read / Write on a fresh connection) against a peer that stays silent
+    for sname, sc in (("12", s12), ("13", s13)):
+        for side in "cs":
+            for call in ("read", "write"):
+                cases.append({"name": "%s/%s/%s/handshake" % (sname, side, call), "scen": sc, "side": side, "call": call, "blocker": "handshake",
+                              "deadline": 200, "setter": "specific", "late": False})
     wd = vlib.scratch("c16dl")
     try:
         inp, out = os.path.join(wd, "in"), os.path.join(wd, "out")
@@ -410,7 +416,7 @@ def deadlines(chk):
         for c, r in confirmed:
             what = ("a %s blocked behind %s did not return a timeout error when its deadline (%d ms) passed: returned=%s after %d ms, "
                     "error %r, Close afterwards ok=%s" % (c["call"], c["blocker"], c["deadline"], r["returned"], r["elapsedMs"], r["err"], r["closeOk"]))
-            chk.violation({"kind": "deadline-ignored", "what": what, "deadline_case": c})
+            chk.violation({"kind": "deadline-ignored", "blocker": c["blocker"], "what": what, "deadline_case": c})
         chk.parts["deadlines"] = {"cases": len(cases), "first_pass_failures": len(bad), "confirmed": len(confirmed)}
         chk.traces(len(cases))
     finally:
